@@ -49,6 +49,9 @@ def gen_events(rng):
         else:
             v = lg.value(rng, quotes=False)
         v = v.replace("\n", "")
+        if rng.random() < 0.2:
+            # a key word of ANOTHER kind inside the value, behind an inner quote: only the START of the text decides the kind
+            v = v + rng.choice([' "lyric video" cut', ' ("section 2")', ' "lyric ', ' "section ', ' the "section 2', '"lyric x'])
         items.append((t, v))
     return items
 
